@@ -8,7 +8,7 @@ for p in $props; do
   [ -f $p/Props.vo ] || { echo "$p: Props.vo missing (not built)"; rc=1; continue; }
   s=$(date +%s)
   out=$(timeout 3000 coqchk -o -silent -Q . CppcmsV CppcmsV.$p.Props 2>&1); r=$?
-  ax=$(echo "$out" | awk '/^\* Axioms:/{f=1;next} /^\* /{f=0} f' | sed 's/^ *//' | tr '\n' ';')
+  ax=$(echo "$out" | awk '/^\* Axioms:/{f=1; sub(/^\* Axioms: */,""); print; next} /^\* /{f=0} f' | sed 's/^ *//' | grep -v '^$' | tr '\n' ';')
   echo "$p: coqchk rc=$r axioms=[${ax:-<none>}] $(( $(date +%s)-s ))s"
   [ $r -eq 0 ] || { rc=1; echo "$out" | tail -5; }
 done
